@@ -488,5 +488,7 @@ func (e *Exec) runInit(entry *ssa.Function) {
 	e.schedule()
 	e.maxSteps = old
 	e.steps = 0
+	e.callCount = map[string]int{}
+	e.stubHits = map[string]int{}
 	e.gs = e.gs[:0]
 }
